@@ -984,6 +984,7 @@ fn main() {
                          "first_reach": reached.iter().map(|(s, (d, i))| json!([s, d, i])).collect::<Vec<_>>()},
         "real_components": ["zeep_lib::utils::read_input_file_and_xsd_files_at_path", "zeep_lib::reader::XmlReader::read_xml", "every impl WriteXml (write_xml tree)", "std::io::Write::write_all/write_fmt"],
         "stub_components": ["the sink: FaultyWriter implementing std::io::Write", "entropy (getrandom via libverifsim.so, fixed so that call indices are repeatable)"],
+        "batch_digest": format!("{:016x}", stats.result_hash),
         "determinism_selfcheck": {"runs_repeated": slice.len(), "worker_counts": [simkernel::workers(), 3], "mismatches": det_mismatch},
         "violating_runs_before_dedup": stats.found.len(),
     });
